@@ -18,6 +18,11 @@ func calc(numLeaves uint64, hashes []Hash, proof Proof) ([]uint64, []Hash, error
 	if len(proof.Proof) < len(hashes) {
 		return nil, nil, errors.New("proof too short")
 	}
+	for _, t := range proof.Targets {
+		if t > maxPos(numLeaves) {
+			return nil, nil, errors.New("position does not exist")
+		}
+	}
 	out := make([]Hash, 0, len(hashes))
 	for i := range hashes {
 		h := hashes[i]
@@ -28,6 +33,8 @@ func calc(numLeaves uint64, hashes []Hash, proof Proof) ([]uint64, []Hash, error
 }
 
 
+
+func maxPos(numLeaves uint64) uint64 { return 2 * numLeaves }
 
 func Verify(stump Stump, delHashes []Hash, proof Proof) ([]int, error) {
 	
